@@ -75,7 +75,7 @@ def catalogue():
 
 
 def plan(tier, seed):
-    specs = [{'kind': 'catalogue'}]
+    specs = [{'kind': 'catalogue'}, {'kind': 'explicit'}]
     if tier == 'quick':
         take3 = [(seed % 8, 8, p, 6) for p in range(6)]
         take4 = [(seed % 16, 16, p, 4) for p in range(4)]
@@ -285,9 +285,55 @@ def edc_variant(rng, node):
     return rw(node)
 
 
+def explicit_catalogue():
+    """Hand-written schemas for the form of local declarations (outside the model AST, whose locals are qualified):
+    an unqualified local element is in no namespace whatever the schema document's default xmlns is."""
+    XS = M.XS
+    out = []
+    for default_ns in (True, False):
+        for form in ('unqualified', 'qualified'):
+            for con, con_admits_tns, con_admits_none in (('##targetNamespace', True, False), ('##local', False, True),
+                                                         ('##other', False, False), ('##any', True, True)):
+                xmlns = ' xmlns="urn:b"' if default_ns else ''
+                text = (f'<xs:schema xmlns:xs="{XS}" targetNamespace="urn:b"{xmlns} elementFormDefault="{form}">'
+                        f'<xs:element name="r"><xs:complexType><xs:sequence>'
+                        f'<xs:any namespace="{con}" minOccurs="0" processContents="lax"/>'
+                        f'<xs:element name="e" type="xs:string"/></xs:sequence></xs:complexType></xs:element></xs:schema>')
+                clash = con_admits_tns if form == 'qualified' else con_admits_none
+                out.append((f'default-xmlns={default_ns} form={form} any={con}', text, clash))
+    return out
+
+
+def run_explicit(res):
+    xmlschema = env.activate_repo()
+    for label, text, clash in explicit_catalogue():
+        for version, cls in (('1.0', xmlschema.XMLSchema10), ('1.1', xmlschema.XMLSchema11)):
+            want_det = not clash or version == '1.1'    # 1.1: an element beside a wildcard is never a clash
+            try:
+                cls(text)
+                built = True
+            except xmlschema.XMLSchemaException as e:
+                built = False
+                if 'Unique Particle Attribution' not in str(e):
+                    res.count('explicit:other_build_error')
+                    continue
+            res.evaluations += 1
+            res.count('explicit:models')
+            res.nontrivial.add(env.h8(('explicit', label, version)))
+            if built != want_det:
+                res.violation(('upa-missed' if built else 'upa-false-alarm') + ':local-element-form-and-default-xmlns',
+                              {'explicit': label, 'version': version, 'xsd': text},
+                              f'{version}: {label}: built={built}, the local element and the wildcard '
+                              f'{"compete" if clash else "do not compete"} for a name')
+            else:
+                res.count('explicit:agree')
+
+
 def run_shard(spec, res):
     env.activate_repo()
     kind = spec['kind']
+    if kind == 'explicit':
+        return run_explicit(res)
     if kind == 'catalogue':
         for node, cfg in catalogue():
             judge(res, node, cfg, 'catalogue')
